@@ -14,9 +14,14 @@ from vmon.util import Viol, prune
 ID = 'C10'
 LEVEL = 'exploration'
 RULE = ('two glob stores with cells (timed ledger process whose timestep 0.5/0.75/1.0/1.5 keeps updates in flight, '
-        'flow steps f1 -> f2, optional legacy deriver declared in steps or in processes); a director (timed '
-        'process or step, depth 0-1) runs scripts of 1-6 operations: _divide (explicit or copied daughter '
-        'processes), _delete (key or path), _generate, _move between the stores, _add; run 6-10 s, then the '
+        'flow steps f0 / f1 -> f2 listed in either order, optional nested sub-compartment with a process and flow '
+        'steps of its own, optional legacy derivers declared in steps or in processes); a director (timed '
+        'process or step, depth 0-1, listed before or after the cells, optionally wired through a sub-topology '
+        'or with a second port on one store) runs scripts of 1-6 batches of operations: _divide (explicit or '
+        'copied daughter processes), _delete (by key, by path, of a nested sub-compartment by a path of two keys), '
+        '_generate (also of a key deleted earlier, of a key vacated by a _move of the same update, of an occupied '
+        'key = replacement in place, and followed by its own _delete), _move between the stores, _add; a second '
+        'director may generate a key in the batch in which the first deletes it; run 6-10 s, then the '
         'published composite is rebuilt into a second engine and both continue for 3 s; non-trivial = >=2 '
         'operations applied, >=1 with a cell update in flight or a second-generation division, >=20 logged '
         'invocations; distinct = distinct case spec')
